@@ -33,10 +33,11 @@ type c10Case struct {
 	VOD       bool   `json:"vod"`
 	AudioLead int    `json:"audio_lead_ms"` // >0: audio starts that much before the video (and is multiplexed first); <0: after
 	NSeg      int    `json:"nseg"`
-	Video     string `json:"video,omitempty"`  // fMP4 video codec: "" = h264, h265 (announced as hvc1), h265:hev1, av1, vp9
-	Audio     string `json:"audio,omitempty"`  // fMP4 audio codec: "" = aac, opus
-	VScale    int    `json:"vscale,omitempty"` // fMP4: timescale of the video track (default 90000)
-	Frames    int    `json:"frames,omitempty"` // video frames per one-second segment (default 4)
+	Video     string `json:"video,omitempty"`   // fMP4 video codec: "" = h264, h265 (announced as hvc1), h265:hev1, av1, vp9
+	Audio     string `json:"audio,omitempty"`   // fMP4 audio codec: "" = aac, opus
+	VScale    int    `json:"vscale,omitempty"`  // fMP4: timescale of the video track (default 90000)
+	Frames    int    `json:"frames,omitempty"`  // video frames per segment (default 4)
+	SegSec    int    `json:"seg_sec,omitempty"` // seconds per segment (default 1; with Frames: a long-running stream with few units)
 	// Grow: a live stream that ends while it is played: the first answer to a playlist request lists all segments but
 	// the last and has no ENDLIST, the later ones list all of them and ENDLIST (VOD must be false)
 	Grow bool `json:"grow,omitempty"`
@@ -98,6 +99,9 @@ func c10VideoData(kind string, seq int, sync bool) [][]byte {
 }
 
 func (c c10Case) String() string {
+	if c.SegSec > 1 {
+		return fmt.Sprintf("%s long-running base=%d tracks=%s pdt=%v vod=%v nseg=%d of %d s with %d frames", c.Container, c.Base, c.Tracks, c.PDT, c.VOD, c.NSeg, c.SegSec, c.Frames)
+	}
 	if c.VScale != 0 {
 		return fmt.Sprintf("%s video-timescale=%d base=%d tracks=%s bframes=%v pdt=%v vod=%v nseg=%d", c.Container, c.VScale, c.Base, c.Tracks, c.BFrames, c.PDT, c.VOD, c.NSeg)
 	}
@@ -184,6 +188,7 @@ func c10Build(cs c10Case) (*c10Stream, error) {
 			}
 			r.tracks = append(r.tracks, sTrack{Kind: t.kind, ID: ti + 1, TimeScale: rate})
 		}
+		segSec := int64(max(cs.SegSec, 1))
 		for j := 0; j < cs.NSeg; j++ {
 			var units []sUnit
 			for ti, t := range lr {
@@ -191,10 +196,10 @@ func c10Build(cs c10Case) (*c10Stream, error) {
 					// 4 frames of 250 ms; with B-frames the decode order is I P B B with presentation offsets
 					nfr, fdur := 4, int64(22500)
 					if cs.Frames > 0 {
-						nfr, fdur = cs.Frames, 90000/int64(cs.Frames)
+						nfr, fdur = cs.Frames, 90000*segSec/int64(cs.Frames)
 					}
 					for k := 0; k < nfr; k++ {
-						t90 := cs.Base + int64(j)*90000 + int64(k)*fdur
+						t90 := cs.Base + int64(j)*90000*segSec + int64(k)*fdur
 						u := sUnit{Track: ti, Sync: k == 0, Data: c10VideoData(t.kind, seq, k == 0), Dur: fdur}
 						seq++
 						u.DTS = t90
@@ -233,10 +238,10 @@ func c10Build(cs c10Case) (*c10Stream, error) {
 					}
 				}
 			}
-			seg := sSegment{DurNS: 1_000_000_000}
+			seg := sSegment{DurNS: 1_000_000_000 * segSec}
 			if cs.PDT {
 				// date-time of a segment = wall-clock time of its first leading-track unit (consistent with media time)
-				d := c10T0.Add(time.Duration(j) * time.Second)
+				d := c10T0.Add(time.Duration(int64(j)*segSec) * time.Second)
 				if !c10IsVideo(lr[0].kind) && len(lr) == 1 {
 					rate := int64(lr[0].rate)
 					spu := int64(1024)
@@ -371,7 +376,7 @@ func (st *c10Stream) playlistAt(ri int, poll int) string {
 	if cs.VOD {
 		typ = "VOD"
 	}
-	return writeMediaPlaylist(7, 1, 0, typ, mapLine, segs, !(cs.Grow && poll == 0), nil)
+	return writeMediaPlaylist(7, max(cs.SegSec, 1), 0, typ, mapLine, segs, !(cs.Grow && poll == 0), nil)
 }
 
 func (st *c10Stream) server() *stubServer {
@@ -523,7 +528,7 @@ func c10RunCase(c *vh.Ctx, cs c10Case) (sig, msg, outcome string) {
 	if len(st.rends) > 1 {
 		uri = "http://media.example/vod/index.m3u8"
 	}
-	obs := runClientPlain(c.T, uri, st.server(), cliOpts{})
+	obs := runClientPlain(c.T, uri, st.server(), cliOpts{Horizon: time.Duration(max(cs.SegSec, 1)*cs.NSeg)*time.Second + 10*time.Minute})
 	exp := st.expect()
 	nd := 0
 	for _, u := range obs.Units {
@@ -712,6 +717,22 @@ func c10Cases(tier string) map[string][]c10Case {
 				}
 			}
 		}
+	}
+	// a stream played for more than 2^32 ticks of 90 kHz (13 h 15 min): few units, far apart (the client paces the delivery
+	// against the virtual clock and tolerates at most 10 s between a unit's time and the clock)
+	for _, cont := range []string{"ts", "fmp4"} {
+		for _, base := range []int64{0, (1 << 33) - 3600*90000} {
+			if cont == "fmp4" && base != 0 {
+				continue
+			}
+			for _, pdt := range []bool{false, true} {
+				out[cont+" long-running"] = append(out[cont+" long-running"], c10Case{Container: cont, Base: base, Tracks: "v", Frags: 1, PDT: pdt, VOD: true, NSeg: 14, SegSec: 4000, Frames: 500})
+			}
+		}
+	}
+	// units exactly 10 s apart: the largest distance between a unit's time and the clock the client accepts
+	for _, cont := range []string{"ts", "fmp4"} {
+		out[cont+" long-running"] = append(out[cont+" long-running"], c10Case{Container: cont, Base: 0, Tracks: "v", Frags: 1, PDT: true, VOD: true, NSeg: 3, SegSec: 4000, Frames: 400})
 	}
 	// many fragments per segment
 	for _, n := range []int{10, 11, 12, 16} {
